@@ -151,6 +151,12 @@ static void COCSdoTransferFinalize(CO_CSDO *csdo)
     uint32_t           code;
 
     if (csdo->State == CO_CSDO_STATE_BUSY) {
+        /* Stop timeout supervision of the finished transfer */
+        if (csdo->Tfer.Tmr >= 0) {
+            (void)COTmrDelete(&(csdo->Node->Tmr), csdo->Tfer.Tmr);
+            csdo->Tfer.Tmr = -1;
+        }
+
         /* Fetch transfer information */
         idx  = csdo->Tfer.Idx;
         sub  = csdo->Tfer.Sub;
@@ -186,6 +192,8 @@ static void COCSdoTimeout(void *parg)
 
     csdo = (CO_CSDO *)parg;
     if (csdo->State == CO_CSDO_STATE_BUSY) {
+        /* The elapsed one-shot timer is released by the timer management */
+        csdo->Tfer.Tmr = -1;
         /* Abort SDO transfer because of timeout */
         COCSdoAbort(csdo, CO_SDO_ERR_TIMEOUT);
         /* Finalize aborted transfer */
